@@ -1670,6 +1670,15 @@ package main
 //@   ensures only-this-writer: forall w int :: !fresh(w) && w != refOf(writer) ==> W[w] == old(W[w])
 //@   ensures start-line: isType(writer, "*bytes.Buffer") ==> W[refOf(writer)] == old(W[refOf(writer)]) + firstLineText(m)
 
+// ---- frame discipline (C01): the closed list of places where a message's header list can change ----
+// Every store to the field through an object the storing function did not allocate, and every element store into
+// the slice it holds, happens in a listed function; each listed function carries the contract of its edit.
+//@ writers Message.headers: (*Message).AddHeader, (*Message).RemoveHeader, (*Message).AddVia, (*Message).AddRecordRoute
+//@ writers Header.name:
+//@ writers Header.value: (*Message).GetFrom, (*Message).GetTo, (*Message).GetCSeq, (*Message).GetVia, (*Message).GetRoute, (*Message).ForEachVia
+//@ onlyvia (*Message).AddHeader: ParseMessage
+//@ onlyvia (*Message).RemoveHeader: (*Message).PopVia, (*Message).PopRoute
+
 //@ func (*Message).Write
 //@   props C01
 //@   uses kvtext addrtext msgtext
